@@ -26,6 +26,8 @@ type WaitCase struct {
 	FB      bool   `json:"fb,omitempty"`      // a fallback that swallows every error is installed
 	ExecUs  int    `json:"exec_us,omitempty"` // a failing attempt spends this long before it returns
 	K0      int    `json:"k0,omitempty"`      // batch: first succeeding attempt of item 0 only (0: same as K)
+	Stop    bool   `json:"stop,omitempty"`     // batch: stop-on-error mode
+	Slow1Us int    `json:"slow1_us,omitempty"` // batch: the first attempt of item 1 takes this long (de-phases the items' waits)
 	CtxFar  bool   `json:"ctx_far,omitempty"` // the context also carries a deadline two hours away (explicit cancellation must still interrupt the wait)
 }
 
@@ -69,6 +71,9 @@ func (w *waitRun) exec(ctx context.Context, item int) (any, error) {
 		err = fmt.Errorf("attempt %d of item %d fails", a, item)
 		if w.cs.ExecUs > 0 {
 			time.Sleep(time.Duration(w.cs.ExecUs) * time.Microsecond)
+		}
+		if item == 1 && a == 1 && w.cs.Slow1Us > 0 {
+			time.Sleep(time.Duration(w.cs.Slow1Us) * time.Microsecond)
 		}
 	}
 	if w.cs.Cancel == a && item == 0 && w.cancel != nil {
@@ -146,6 +151,9 @@ func runWaitCase(cs *WaitCase) (*waitObs, []finding) {
 		var bo []any
 		if cs.FB {
 			bo = append(bo, flyt.WithExecFallbackFunc(func(any, error) (any, error) { return "rescued", nil }))
+		}
+		if cs.Stop {
+			bo = append(bo, flyt.WithBatchErrorHandling(false))
 		}
 		node = flyt.NewBatchNode(bo...).WithMaxRetries(cs.N).WithWait(wait).WithBatchConcurrency(cs.C).
 			WithPrepFunc(func(ctx context.Context, s *flyt.SharedStore) ([]flyt.Result, error) {
@@ -297,6 +305,12 @@ func runC20(c *Cfg) {
 				}
 			}
 		}
+	}
+	// stop mode, concurrent: one item fails for good while its sibling is in the middle of a retry wait —
+	// the sibling's waits are still honoured
+	for _, w := range []time.Duration{20 * time.Millisecond, 40 * time.Millisecond} {
+		cases = append(cases, &WaitCase{Family: "lower-bound-batch-stop", Kind: "batch", WaitNs: int64(w), N: 3, K: 4, C: 2, Items: 2, Stop: true, Slow1Us: int(w / 2 / time.Microsecond)})
+		cases = append(cases, &WaitCase{Family: "lower-bound-batch-stop", Kind: "batch", WaitNs: int64(w), N: 4, K: 5, K0: 3, C: 3, Items: 3, Stop: true, Slow1Us: int(w / 3 / time.Microsecond)})
 	}
 	// upper bounds ("no wait before the first attempt or after the last one"): w = 300 ms
 	for _, kind := range []string{"struct", "func", "batch"} {
